@@ -904,7 +904,7 @@ func (g *Gen) scenario() {
 	ch := g.pick([]string{"#s1", "#s2", "#S1", "#s3"})
 	nsc := 11
 	if g.P.Extra {
-		nsc = 21
+		nsc = 22
 	}
 	sc := g.R.Intn(nsc)
 	if sc >= 11 {
@@ -1110,6 +1110,18 @@ func (g *Gen) extraScenario(sc int, a, b *gsess, rs []*gsess) {
 				break
 			}
 		}
+	case 21: // an invitation opens +i/+x, nothing else: the invited user is banned or lacks the key
+		ch := g.pick([]string{"#s13", "#S13"})
+		g.line(a, "JOIN "+ch)
+		g.line(a, "MODE "+ch+" +"+g.pick([]string{"i", "i", "x"}))
+		if g.R.Intn(2) == 0 {
+			g.line(a, "MODE "+ch+" +b "+g.pick([]string{b.nick + "!*@*", "*!*@*", fmt.Sprintf("*!*@robust/0x%x", b.id)}))
+		} else {
+			g.line(a, "MODE "+ch+" +k sekrit")
+		}
+		g.line(a, "INVITE "+b.nick+" "+ch)
+		g.line(b, "JOIN "+ch+g.pick([]string{"", " wrong", " sekrit"}))
+		g.line(a, "NAMES "+ch)
 	case 19: // an address is banned network-wide; a registered session then shows up from it
 		for _, o := range rs {
 			if o.oper && o != a && o != b {
